@@ -30,9 +30,10 @@ def cases(tier, seed):
     for c in REGRESSION:
         yield dict(c, kind="prog", stream="corpus")
     cfgs = [
-        (0.4, P.small_cfg()),
-        (0.25, P.Cfg(max_bits=10, depth=3, stmts=3)),
-        (0.25, P.collections_cfg()),
+        (0.3, P.small_cfg()),
+        (0.2, P.Cfg(max_bits=10, depth=3, stmts=3)),
+        (0.2, P.collections_cfg()),
+        (0.2, P.intchain_cfg()),
         (0.1, P.Cfg(max_bits=12 if tier == "quick" else 16, depth=3 if tier == "quick" else 4, stmts=4, widths=[2, 3, 4, 5, 6, 7, 8, 12])),
     ]
     for w, cfg in cfgs:
@@ -45,7 +46,32 @@ def cases(tier, seed):
         yield dict(c, kind="prog", stream="outside")
 
 
-REGRESSION = []
+def _r(src, args, ret):
+    return {"src": src, "args": args, "ret": ret, "feat": ["corpus"]}
+
+
+REGRESSION = [
+    _r("def f(a: Qint[2], done: bool) -> Qint[2]:\n    r = a\n    if done:\n        r = a + 1\n    else:\n        done = True\n        r = a + 2\n    return r\n", [["a", "Qint2"], ["done", "bool"]], "Qint2"),
+    _r("def f(a: Qint[2], done: bool) -> Tuple[Qint[2], bool]:\n    r = a\n    if done:\n        done = False\n        r = a + 1\n    else:\n        r = a + 2\n        done = True\n    return (r, done)\n", [["a", "Qint2"], ["done", "bool"]], ["Qint2", "bool"]),
+    _r("def f(a: Qlist[Qint[2], 3], seen: bool) -> Qint[2]:\n    n = 0\n    for x in a:\n        if seen:\n            n = n ^ x\n        else:\n            seen = True\n            n = n + x\n    return n\n", [["a", ["Qint2"] * 3], ["seen", "bool"]], "Qint2"),
+    _r("def f(a: Qint[2], b: Qint[2]) -> Tuple[Qint[2], Qint[2]]:\n    a, b = b, a\n    return (a, b)\n", [["a", "Qint2"], ["b", "Qint2"]], ["Qint2", "Qint2"]),
+    _r("def f(a: Qint[2], b: Qint[2]) -> Tuple[Qint[2], Qint[2]]:\n    for i in range(3):\n        a, b = b, a + b\n    return (a, b)\n", [["a", "Qint2"], ["b", "Qint2"]], ["Qint2", "Qint2"]),
+    _r("def f(a: bool, b: bool, c: bool) -> Tuple[bool, bool, bool]:\n    a, b, c = b, c, a\n    return (a, b, c)\n", [["a", "bool"], ["b", "bool"], ["c", "bool"]], ["bool", "bool", "bool"]),
+    _r("def f(a: Qint[4], b: Qint[2]) -> Qint[4]:\n    return (a | b) + 1\n", [["a", "Qint4"], ["b", "Qint2"]], "Qint4"),
+    _r("def f(a: Qint[4], b: Qint[2], c: bool) -> Qint[4]:\n    return (a ^ b) if c else b\n", [["a", "Qint4"], ["b", "Qint2"], ["c", "bool"]], "Qint4"),
+    _r("def f(a: Qint[4]) -> Qint[4]:\n    x = a ^ 1\n    return x + 2\n", [["a", "Qint4"]], "Qint4"),
+    _r("def f(a: Qint[4], b: Qint[2]) -> Qint[4]:\n    return (a & b) << 1\n", [["a", "Qint4"], ["b", "Qint2"]], "Qint4"),
+    _r("def f(a: Qint[2], b: Qint[4]) -> bool:\n    return a > b\n", [["a", "Qint2"], ["b", "Qint4"]], "bool"),
+    _r("def f(a: Qint[2], b: Qint[4]) -> Qint[4]:\n    return a - b\n", [["a", "Qint2"], ["b", "Qint4"]], "Qint4"),
+    _r("def f(a: Qint[4]) -> Qint[8]:\n    return a * 6\n", [["a", "Qint4"]], "Qint8"),
+    _r("def f(a: Qint[4]) -> Qint[8]:\n    return a * 0\n", [["a", "Qint4"]], "Qint8"),
+    _r("def f(a: Qmatrix[bool, 2, 3]) -> bool:\n    c = False\n    for r in a:\n        for x in r:\n            c = c ^ x\n    return c\n", [["a", [["bool"] * 3] * 2]], "bool"),
+    _r("def f(a: Qmatrix[Qint[2], 2, 2], i: Qint[2], j: Qint[2]) -> Qint[2]:\n    return a[i][j]\n", [["a", [["Qint2"] * 2] * 2], ["i", "Qint2"], ["j", "Qint2"]], "Qint2"),
+    _r("def f(a: Qint[2], b: bool) -> Qint[2]:\n    if b:\n        a += 1\n    else:\n        a ^= 2\n    return a\n", [["a", "Qint2"], ["b", "bool"]], "Qint2"),
+    _r("def f(a: Qlist[bool, 4]) -> Tuple[bool, bool]:\n    return (all(a), any(a))\n", [["a", ["bool"] * 4]], ["bool", "bool"]),
+    _r("def f(a: Qlist[Qint[2], 3]) -> Tuple[Qint[2], Qint[2], Qint[2]]:\n    return (max(a), min(a), sum(a))\n", [["a", ["Qint2"] * 3]], ["Qint2", "Qint2", "Qint2"]),
+    _r("def f(c: Qchar) -> bool:\n    return ord(c) == 3\n", [["c", "Qchar"]], "bool"),
+]
 
 
 def _profiles():
